@@ -9,6 +9,7 @@ import collections
 import copy
 import dataclasses
 import gc
+import io
 import types
 import typing
 from dataclasses import dataclass, field
@@ -140,9 +141,16 @@ def passthrough_ids(ts, d, out=None):
     return out
 
 
+STREAM_POS = [True]     # compare the position of BytesIO arguments (switched off for positions typed IO[bytes], see META)
+
+
 def struct_eq(a, b):
     """same() but objects whose class does not define equality are equal when their types are"""
+    if isinstance(a, io.BytesIO) and isinstance(b, io.BytesIO):
+        return a.getvalue() == b.getvalue() and (not STREAM_POS[0] or a.tell() == b.tell())
     if same(a, b):
+        if STREAM_POS[0] and _has_stream(a):
+            return _streams_eq(a, b)
         return True
     if type(a) is not type(b):
         return False
@@ -155,6 +163,30 @@ def struct_eq(a, b):
     if _is_model(a):
         return struct_eq(vars(a), vars(b)) if hasattr(a, "__dict__") else True
     return type(a).__eq__ is object.__eq__ or hasattr(a, "__next__")
+
+
+def _has_stream(a, depth=0):
+    if isinstance(a, io.BytesIO):
+        return True
+    if depth > 6:
+        return False
+    if isinstance(a, (list, tuple, set, frozenset, collections.deque)):
+        return any(_has_stream(x, depth + 1) for x in a)
+    if isinstance(a, dict):
+        return any(_has_stream(x, depth + 1) for x in a.values())
+    return False
+
+
+def _streams_eq(a, b):
+    """a and b are already known to be equal by content: compare the positions of the streams inside (same iteration order,
+    unordered containers are skipped)"""
+    if isinstance(a, io.BytesIO):
+        return isinstance(b, io.BytesIO) and a.tell() == b.tell()
+    if isinstance(a, (list, tuple, collections.deque)):
+        return all(_streams_eq(x, y) for x, y in zip(a, b))
+    if isinstance(a, dict):
+        return all(_streams_eq(a[k], b[k]) for k in a if k in b)
+    return True
 
 
 def _added_keys(now, before, out=None):
@@ -271,10 +303,14 @@ def types_shard(types):
                 values = values_of(ts)
             except Exception:  # noqa: BLE001
                 continue
+            # IO[bytes]: a stream of unknown class can only be dumped by reading it, its position is not compared; a BytesIO
+            # has getvalue() and must be left where it was
+            STREAM_POS[0] = "IOBytes" not in show(ts)
             for i, x in enumerate(values):
                 purity(report, {"check": "C20.dump", "node": unwrap(ts)[0]}, f"dump {show(ts)} of {codec.show(x, 50)} [{mode_name(mode)}]",
                        dumper, lambda x=x: copy.deepcopy(x), lambda a, ts=ts: passthrough_ids(ts, a),
                        {"key": ("d", ts, i, mode), "kind": "dump", "type": to_json(ts), "value_index": i, "mode": list(mode)})
+            STREAM_POS[0] = True
     return report
 
 
@@ -622,6 +658,138 @@ def extra_out_targets_leg(report):
                        {"key": ("xo", targets, dbg), "kind": "extra_out_targets", "targets": list(targets), "debug": dbg})
 
 
+class _Env:
+    """takes its data only through a saturator"""
+    def __init__(self):
+        self.extra = None
+
+    def __eq__(self, other):
+        return type(other) is _Env and self.extra == other.extra
+
+
+def _env_saturate(obj, extra):
+    obj.extra = extra
+
+
+class _ROMap(collections.abc.Mapping):
+    def __init__(self, d):
+        self._d = d
+
+    def __getitem__(self, k):
+        return self._d[k]
+
+    def __iter__(self):
+        return iter(self._d)
+
+    def __len__(self):
+        return len(self._d)
+
+    def __eq__(self, other):
+        return type(other) is _ROMap and self._d == other._d
+
+    def __deepcopy__(self, memo):
+        return _ROMap(copy.deepcopy(self._d, memo))
+
+
+def extra_in_mapping_leg(report):
+    """"the mapping of collected extra data is created anew by each call": models whose crown knows no key at all, one key, or only
+    skipped keys, whose extras go to an as-is target (Any), to a saturator or to **kwargs; the values inside the mapping are
+    Any-typed (pass-through), the mapping itself never is the argument nor shared between two results"""
+    from adaptix import ExtraKwargs, name_mapping
+
+    @dataclass
+    class OnlyRest:
+        rest: Any
+
+    @dataclass
+    class RestAndSkipped:
+        rest: Any
+        a: int = 0
+
+    @dataclass
+    class RestAndField:
+        a: int
+        rest: Any
+
+    @dataclass
+    class Outer:
+        inner: OnlyRest
+        items: List[OnlyRest]
+
+    class Kw:
+        def __init__(self, **kwargs):
+            self.kw = kwargs
+
+        def __eq__(self, other):
+            return type(other) is Kw and self.kw == other.kw
+
+    class Sat:
+        def __init__(self, a: int = 0):
+            self.a = a
+            self.extra = None
+
+        def __eq__(self, other):
+            return type(other) is Sat and (self.a, self.extra) == (other.a, other.extra)
+
+    def results_containers(r, out):
+        # the classes above are plain objects: walk their attributes by hand
+        if isinstance(r, (Kw, Sat, _Env)):
+            for v in vars(r).values():
+                out.update(containers(v))
+                results_containers(v, out)
+        elif isinstance(r, Outer):
+            results_containers(r.inner, out)
+            for x in r.items:
+                results_containers(x, out)
+        return out
+
+    flat = lambda: {"x": 1, "y": [2], "a": 5}      # noqa: E731
+    programs = [
+        ("OnlyRest/target", OnlyRest, [name_mapping(OnlyRest, extra_in="rest")], flat),
+        ("RestAndSkipped/target", RestAndSkipped, [name_mapping(RestAndSkipped, extra_in="rest", skip=["a"])], flat),
+        ("RestAndField/target", RestAndField, [name_mapping(RestAndField, extra_in="rest")], flat),
+        ("Outer/target", Outer, [name_mapping(OnlyRest, extra_in="rest")],
+         lambda: {"inner": {"x": [1]}, "items": [{"y": [2]}, {}]}),
+        ("Kw/kwargs", Kw, [name_mapping(Kw, extra_in=ExtraKwargs())], lambda: {"x": 1, "y": [2]}),
+        ("Sat/saturator", Sat, [name_mapping(Sat, extra_in=_env_saturate)], flat),
+        ("Sat/saturator-skipped", Sat, [name_mapping(Sat, extra_in=_env_saturate, skip=["a"])], flat),
+        ("Env/saturator", _Env, [name_mapping(_Env, extra_in=_env_saturate)], flat),
+    ]
+    wrappers = [("dict", lambda d: d), ("defaultdict", lambda d: collections.defaultdict(_missing_value, d)),
+                ("Mapping", lambda d: _ROMap(d) if all(not isinstance(v, (dict, list)) or True for v in d.values()) else d)]
+    for name, cls, recipe, mk in programs:
+        for mode in (("DISABLE", True), ("FIRST", True), ("ALL", True), ("ALL", False)):
+            try:
+                loader = retort_with(recipe, mode).get_loader(cls)
+            except Exception:  # noqa: BLE001
+                report.outcome("extra_in mapping leg: refused")
+                continue
+            for wname, wrap in wrappers:
+                if name.startswith("Outer") and wname != "dict":
+                    make = lambda mk=mk, wrap=wrap: {k: (wrap(v) if isinstance(v, dict) else [wrap(x) for x in v]) for k, v in mk().items()}  # noqa: E731
+                else:
+                    make = lambda mk=mk, wrap=wrap: wrap(mk())  # noqa: E731
+                seen = {}
+
+                def func(arg, loader=loader, seen=seen):
+                    r = loader(arg)
+                    # every mapping the result holds is reported as a container of the result (plain classes are not walked by
+                    # containers()), by wrapping the result into a list next to them
+                    return [r, *results_containers(r, {}).values()]
+
+                def allowed(a):
+                    # values inside the collected mapping are Any-typed; the mappings of the argument themselves are not
+                    ids = set()
+                    for m in ([a] if not name.startswith("Outer") else [a["inner"], *a["items"]]):
+                        for v in (m.values() if hasattr(m, "values") else ()):
+                            ids.update(containers(v))
+                    return ids
+                purity(report, {"check": "C20.model_load", "site": "extra_in_mapping"},
+                       f"load {name} <- {wname} [{mode_name(mode)}]", func, make, allowed,
+                       {"key": ("xi", name, wname, mode), "kind": "extra_in_mapping", "program": name, "input": wname, "mode": list(mode)},
+                       check_closure=False)
+
+
 def retort_with(recipe, mode):
     from adaptix import DebugTrail
     return Retort(recipe=recipe, debug_trail=DebugTrail[mode[0]], strict_coercion=mode[1])
@@ -638,6 +806,7 @@ def run(tier):
     variants_leg(report)
     error_objects_leg(report)
     extra_out_targets_leg(report)
+    extra_in_mapping_leg(report)
     return report
 
 
@@ -662,6 +831,8 @@ def replay(case):
         error_objects_leg(report)
     elif case["kind"] == "extra_out_targets":
         extra_out_targets_leg(report)
+    elif case["kind"] == "extra_in_mapping":
+        extra_in_mapping_leg(report)
     else:
         conv_leg(report)
     for v in report.violations.values():
